@@ -488,6 +488,42 @@ def rule_e(ctx):
             'the awaited task\'s CancelledError and any other exception are handled inside the helper' if not esc else
             'an %s out of the awaited task escapes the helper: the caller\'s remaining cancellations are skipped' %
             ' / '.join(esc))
+    # ... and it does cancel: for a task that exists and is not done, cancel() and then the await of that very task;
+    # for no task / a finished task, nothing
+    tparam = helper.params()[0]
+    tk = ('param', helper.qualname, tparam)
+    okc, detailc = True, ''
+    n_cancel = 0
+    for p in ctx.paths(helper, None, inline_depth=0, symbolic_compare=True):
+        facts = {}
+        for e in p.events:
+            if e.kind != 'cond':
+                continue
+            k = strip_epoch(e.data['key'])
+            v = bool(e.data['value'])
+            if k[0] == 'isnone' and k[1] == tk:
+                facts['none'] = v
+            elif k[0] == 'truth' and isinstance(k[1], tuple) and k[1][0] in ('call', 'pure') and k[1][1] == 'done':
+                facts['done'] = v
+            elif k[0] == 'not' and isinstance(k[1], tuple) and k[1][0] in ('call', 'pure') and k[1][1] == 'done':
+                facts['done'] = not v
+        cancels = [e for e in p.events if e.kind == 'call' and e.data.get('name') == 'cancel' and
+                   e.data.get('recv') is not None and strip_epoch(e.data['recv'].term) == tk]
+        waits = [e for e in p.events if e.kind == 'await' and e.data.get('what') is not None and
+                 strip_epoch(e.data['what'].term) == tk]
+        live = facts.get('none') is False and facts.get('done') is False
+        if live:
+            n_cancel += 1
+            if len(cancels) != 1:
+                okc, detailc = False, 'a task that exists and is not done is cancelled %d times' % len(cancels)
+            elif not [w for w in waits if w.seq > cancels[0].seq]:
+                okc, detailc = False, 'the cancelled task is not awaited: the caller goes on while it still runs'
+        elif cancels:
+            if facts.get('none') is True:
+                okc, detailc = False, 'cancel() is called on None'
+    rep.add('C11.e', 'cancel_if_task_exists / cancels and awaits a task that exists and is not done', helper,
+            okc and n_cancel > 0, detailc or 'task.cancel() then await task on the %d paths with a live task' % n_cancel
+            if okc and n_cancel else detailc or 'no path cancels a live task')
     # tasks kept in local variables are cancelled in a finally of the same function
     for cls in _socket_classes(ctx):
         for k in cls.mro():
